@@ -61,6 +61,8 @@ func dfsScenarios() []*rpcsim.Scenario {
 		one("dfs-ack-tick-tick", 2, ack1, adv3, adv3),
 		one("dfs-result-tick", 1, res0, adv3),
 		one("dfs-result-ack-tick", 2, res0, ack1, adv3),
+		one("dfs-result-ack-tick-tick", 2, res0, ack1, adv3, adv3),
+		one("dfs-limit-2-lost-acks", 2, adv3, adv3, rpcsim.Option{Kind: "ack", IDs: []int64{90}}),
 		{Name: "dfs-two-calls-ack-tick", Cfg: rpcsim.Config{MaxRetries: 1, Interval: 3},
 			Calls: []rpcsim.Option{{Kind: "start", ID: 1, Seq: 1, Body: 7}, {Kind: "start", ID: 2, Seq: 3, Body: 8}},
 			Env:   []rpcsim.Option{{Kind: "ack", IDs: []int64{2}}, adv3}},
